@@ -298,8 +298,86 @@ pub fn ref_police(exposed_types: &[u16], supported: &[u16], required: &[u16]) ->
     None
 }
 
+/// What the library says about one buffer, as a string: verdict, header fields, exposed attributes,
+/// lookups of the sealing types, validation under the given credentials.  Used to check that these
+/// answers are a function of the buffer alone (not of what was decoded before, nor of the thread).
+pub fn outcome_digest(buf: &[u8], creds: &[RefCreds]) -> String {
+    let r = guard(|| match Message::from_bytes(buf) {
+        Err(e) => format!("Err({e:?})"),
+        Ok(m) => {
+            let mut s = format!("Ok {:?} {:#x} {}", m.class(), m.method(), hex(&imp::tid_to_bytes(m.transaction_id())));
+            for a in m.iter_attributes().take(buf.len() / 4 + 2) {
+                s.push_str(&format!(" {:#06x}/{}:{:08x}", a.get_type().value(), a.value.len(), crate::refimpl::crypto::crc32_fast(&a.value)));
+            }
+            for t in [MI, MI256, FP] {
+                s.push_str(&format!(" has({t:#x})={}", m.has_attribute(AttributeType::new(t))));
+            }
+            for c in creds {
+                s.push_str(&format!(" v={:?}", m.validate_integrity(&imp::to_impl_creds(c)).map_err(|e| err_name(&e))));
+            }
+            s
+        }
+    });
+    r.unwrap_or_else(|p| format!("panic: {}", p.msg))
+}
+
+thread_local! {
+    /// the last few buffers with the digest they produced when they were first decoded
+    static RECENT: std::cell::RefCell<Vec<(Vec<u8>, Vec<RefCreds>, String)>> = const { std::cell::RefCell::new(Vec::new()) };
+    static RECENT_CALLS: std::cell::Cell<u64> = const { std::cell::Cell::new(0) };
+}
+
+/// Every 257th buffer: the last eight buffers are decoded again, in reverse order, as the first
+/// calls of a freshly spawned thread, and must give the answers they gave the first time.
+fn history_independence(ctx: &mut Ctx, buf: &[u8], o: &Opts) {
+    if cfg!(miri) || buf.len() > 4096 {
+        return;
+    }
+    let n = RECENT_CALLS.with(|c| {
+        c.set(c.get() + 1);
+        c.get()
+    });
+    if n % 32 == 0 || n % 257 < 8 {
+        let d = outcome_digest(buf, &o.creds);
+        RECENT.with(|r| {
+            let mut r = r.borrow_mut();
+            r.push((buf.to_vec(), o.creds.clone(), d));
+            if r.len() > 8 {
+                r.remove(0);
+            }
+        });
+    }
+    if n % 257 != 8 {
+        return;
+    }
+    let batch: Vec<(Vec<u8>, Vec<RefCreds>, String)> = RECENT.with(|r| r.borrow().clone());
+    if batch.len() < 2 {
+        return;
+    }
+    let b2 = batch.clone();
+    let again: Vec<String> = std::thread::spawn(move || b2.iter().rev().map(|(b, c, _)| outcome_digest(b, c)).collect()).join().unwrap_or_default();
+    ctx.count("history-independence-batches");
+    for ((b, c, first), second) in batch.iter().rev().zip(again.iter()) {
+        if first != second {
+            let tag = if ["C02", "C04", "C09", "C10", "C17"].contains(&ctx.prop.as_str()) { ctx.prop.clone() } else { "C02".to_string() };
+            let oo = Opts { creds: c.clone(), ..Opts::default() };
+            ctx.violation(
+                &tag,
+                "answer-depends-only-on-the-buffer",
+                "Message::from_bytes",
+                "other-history-or-thread",
+                || wit_bytes("history-independence", b, &oo),
+                first.chars().take(300).collect(),
+                format!("decoded again first on a fresh thread, in another order: {}", second.chars().take(300).collect::<String>()),
+            );
+            break;
+        }
+    }
+}
+
 /// Everything about one buffer.  Returns what happened (for workload statistics).
 pub fn check_buffer(ctx: &mut Ctx, buf: &[u8], o: &Opts) -> Outcome {
+    history_independence(ctx, buf, o);
     let mut out = Outcome::default();
     let rp = ref_parse(buf);
     out.ref_accepted = rp.accepted() && rp.excess == 0;
